@@ -71,6 +71,9 @@ struct Scn {
     calls: Vec<Call>,
     send_period_ms: u64,
     tcp_period_ms: u64,
+    /// long-lived conversations (one stream per ordered host pair, both sides write every
+    /// period and close at a seeded time); 0 = none
+    conv_period_ms: u64,
     stop_step: u64,
 }
 
@@ -83,6 +86,12 @@ enum Ev {
     ConnRet { id: u64, ok: bool, kind: String },
     DataSent { src: usize, dst: usize, id: u64 },
     TcpRecv { id: u64 },
+    /// conversation stream `id` is established as seen by `host`
+    ConvUp { id: u64, host: usize, peer: usize },
+    /// `host` closed its side (dropped the stream)
+    ConvClose { id: u64, host: usize },
+    /// `host` learned from the stream that the peer is gone: EOF / reset on read, error on write
+    ConvEnd { id: u64, host: usize, peer: usize, how: String },
 }
 
 fn hname(i: usize) -> String {
@@ -176,14 +185,23 @@ async fn host_program(log: Log<Ev>, me: usize, s: Scn, ips: Vec<IpAddr>) -> turm
     // TCP acceptor
     {
         let log = log.clone();
+        let s2 = s.clone();
         tokio::task::spawn_local(async move {
             loop {
                 let Ok((mut st, _)) = listener.accept().await else { continue };
                 let log = log.clone();
+                let s3 = s2.clone();
                 tokio::task::spawn_local(async move {
                     let mut b = [0u8; 8];
                     if st.read_exact(&mut b).await.is_ok() {
-                        log.push(Ev::TcpRecv { id: u64::from_le_bytes(b) });
+                        let id = u64::from_le_bytes(b);
+                        if id & CONV != 0 {
+                            let peer = ((id >> 8) & 0xff) as usize;
+                            log.push(Ev::ConvUp { id, host: me, peer });
+                            conv_side(st, log, id, me, peer, &s3).await;
+                            return;
+                        }
+                        log.push(Ev::TcpRecv { id });
                     }
                     // wait for EOF / reset, then drop
                     let mut sink = [0u8; 8];
@@ -209,6 +227,24 @@ async fn host_program(log: Log<Ev>, me: usize, s: Scn, ips: Vec<IpAddr>) -> turm
     }
     // everybody has bound after the first two steps
     tokio::time::sleep(Duration::from_millis(2 * s.tick_ms)).await;
+    // conversations: one long-lived stream to every other host
+    if s.conv_period_ms > 0 {
+        for dst in 0..s.nhosts {
+            if dst == me {
+                continue;
+            }
+            let log = log.clone();
+            let s2 = s.clone();
+            tokio::task::spawn_local(async move {
+                let id = CONV | ((me as u64) << 8) | dst as u64;
+                if let Ok(st) = TcpStream::connect((hname(dst), 9001)).await {
+                    log.push(Ev::ConvUp { id, host: me, peer: dst });
+                    let _ = st.try_write(&id.to_le_bytes());
+                    conv_side(st, log, id, me, dst, &s2).await;
+                }
+            });
+        }
+    }
     // TCP probes
     if s.tcp_period_ms > 0 {
         let log = log.clone();
@@ -268,6 +304,50 @@ async fn host_program(log: Log<Ev>, me: usize, s: Scn, ips: Vec<IpAddr>) -> turm
     std::future::pending::<()>().await;
     let _ = now_ms();
     Ok(())
+}
+
+const CONV: u64 = 1 << 62;
+
+/// One side of a conversation: write a record every period, read whatever comes, close at a
+/// seeded time (possibly never). Anything that tells this side the peer is gone is logged.
+async fn conv_side(st: TcpStream, log: Log<Ev>, id: u64, me: usize, peer: usize, s: &Scn) {
+    use tokio::io::AsyncWriteExt;
+    let mut r = Rng::new(s.rng_seed ^ id.rotate_left(17) ^ me as u64);
+    let horizon = s.stop_step * s.tick_ms;
+    let close_at = if r.chance(0.35) { 4 * horizon + 10_000 /* never during the run; a far-future timer makes the runtime shutdown crawl */ } else { r.range(3, horizon.max(4)) };
+    let (mut rd, mut wr) = st.into_split();
+    let close = tokio::time::sleep(Duration::from_millis(close_at.saturating_sub(now_ms())));
+    tokio::pin!(close);
+    let mut tick = tokio::time::interval(Duration::from_millis(s.conv_period_ms));
+    let mut buf = [0u8; 64];
+    loop {
+        tokio::select! {
+            _ = &mut close => {
+                log.push(Ev::ConvClose { id, host: me });
+                return;
+            }
+            res = rd.read(&mut buf) => match res {
+                Ok(0) => {
+                    log.push(Ev::ConvEnd { id, host: me, peer, how: "read:eof".into() });
+                    return;
+                }
+                Ok(_) => {}
+                Err(e) => {
+                    log.push(Ev::ConvEnd { id, host: me, peer, how: format!("read:{:?}", e.kind()) });
+                    return;
+                }
+            },
+            _ = tick.tick() => {
+                if rec::step() > s.stop_step {
+                    continue;
+                }
+                if let Err(e) = wr.write_all(&[1u8; 8]).await {
+                    log.push(Ev::ConvEnd { id, host: me, peer, how: format!("write:{:?}", e.kind()) });
+                    return;
+                }
+            }
+        }
+    }
 }
 
 fn ceil_steps(ms: u64, tick: u64) -> u64 {
@@ -528,6 +608,76 @@ fn scenario(s: Scn, tag: &str) -> ScenarioOut {
             _ => {}
         }
     }
+    // conversations: whatever tells `host` that `peer` is gone was carried by a message
+    // peer->host; if that direction was explicitly partitioned during the whole time such a
+    // message could have been in flight, it crossed the partition
+    {
+        let lat_steps = ceil_steps(s.max_ms, s.tick_ms);
+        let mut on2 = vec![vec![false; n]; n];
+        // per direction: positions where the direction was open (or became open)
+        let mut last_open: Vec<Vec<(usize, u64)>> = vec![vec![(0, 0); n]; n]; // (pos, step) of the latest instant the direction was open
+        let mut up_step: BTreeMap<(u64, usize), u64> = BTreeMap::new();
+        for (p, (step, e)) in evs.iter().enumerate() {
+            // every direction that is open now was open at this instant
+            for a in 0..n {
+                for b in 0..n {
+                    if !on2[a][b] {
+                        last_open[a][b] = (p, *step);
+                    }
+                }
+            }
+            match e {
+                Ev::Call { op, x, y } => {
+                    for a in x {
+                        for b in y {
+                            if a == b {
+                                continue;
+                            }
+                            match op {
+                                Op::Partition => {
+                                    on2[*a][*b] = true;
+                                    on2[*b][*a] = true;
+                                }
+                                Op::PartitionOneway => on2[*a][*b] = true,
+                                Op::Repair => {
+                                    on2[*a][*b] = false;
+                                    on2[*b][*a] = false;
+                                }
+                                Op::RepairOneway => on2[*a][*b] = false,
+                            }
+                        }
+                    }
+                }
+                Ev::ConvUp { id, host, .. } => {
+                    up_step.insert((*id, *host), *step);
+                    out.count("conversations_established", 1);
+                }
+                Ev::ConvClose { .. } => out.count("conversation_sides_closed", 1),
+                Ev::ConvEnd { id, host, peer, how } => {
+                    out.count("conversation_ends_observed", 1);
+                    out.saw("conversation_end_kinds", how.clone());
+                    let (_, open_step) = last_open[*peer][*host];
+                    let up = up_step.get(&(*id, *host)).copied().unwrap_or(0);
+                    if on2[*peer][*host] {
+                        out.count("conversation_ends_with_direction_partitioned", 1);
+                    }
+                    // a message sent at the last open instant has arrived or was dropped
+                    // lat_steps later; two steps of slack for the wake-up of the reader
+                    if on2[*peer][*host] && open_step + lat_steps + 2 < *step && up + lat_steps + 2 < *step {
+                        out.violate(
+                            "notification-across-partition",
+                            format!("C03|notification-across-partition|{}|{sigctx}", how),
+                            format!(
+                                "h{host} learned in step {step} ({how}) that its peer h{peer} closed conversation {id:#x}, but h{peer}->h{host} has been explicitly partitioned since step {open_step} (max latency {lat_steps} steps): the FIN/RST crossed the partition"
+                            ),
+                            desc.clone(),
+                        );
+                    }
+                }
+                _ => {}
+            }
+        }
+    }
     out.count("calls", evs.iter().filter(|e| matches!(e.1, Ev::Call { .. })).count() as u64);
     out.saw("call_sequences", callseq.join(","));
     for c in &s.calls {
@@ -600,6 +750,7 @@ fn base(r: &mut Rng, exhaustive_rates: bool) -> Scn {
         calls: vec![],
         send_period_ms: r.pick_copy(&[1u64, 1, 2, 3]),
         tcp_period_ms: if r.chance(0.6) { r.pick_copy(&[2u64, 3, 5]) } else { 0 },
+        conv_period_ms: r.pick_copy(&[0u64, 1, 2, 3]),
         stop_step: 0,
     }
 }
@@ -692,8 +843,8 @@ fn gen_directed_f3(seed: u64) -> Scn {
 pub fn run(ctx: &Ctx) -> ! {
     let ws = words();
     let nwords = ws.len() as u64; // 258
-    let reps = ctx.pick(10u64, 60);
-    let nrandom = ctx.pick(8000u64, 120_000);
+    let reps = ctx.pick(30u64, 150);
+    let nrandom = ctx.pick(40_000u64, 600_000);
     let ndirected = 8u64;
     let total = nwords * reps + nrandom + ndirected;
     let build = move |c: &Ctx, idx: u64| -> (Scn, String, u64) {
@@ -748,13 +899,13 @@ pub fn run(ctx: &Ctx) -> ! {
 fn fin(_full: bool) -> Finish<'static> {
     Finish {
         level: "fault_enumeration",
-        rule: "every call sequence of length <=3 over {partition(A,B), partition_oneway(A,B), partition_oneway(B,A), repair(A,B), repair_oneway(A,B), repair_oneway(B,A)} (258 words) x sampled placements (between steps from the Sim handle / inside host code), plus random sequences of length <=12 over 2-4 hosts with name/IP/regex host sets, plus directed one-way-partition-under-random-failure runs; UDP datagrams every 1-3 ms in every direction and TCP connect+record probes; fixed and ranged latencies; fail/repair rates 0 or in {0.05,0.3,1}; non-trivial = >=1 message sent inside a partitioned interval and >=1 message definitely in flight at a switch-on; distinct = digest of (calls, latency config, receive log)",
+        rule: "every call sequence of length <=3 over {partition(A,B), partition_oneway(A,B), partition_oneway(B,A), repair(A,B), repair_oneway(A,B), repair_oneway(B,A)} (258 words) x sampled placements (between steps from the Sim handle / inside host code), plus random sequences of length <=12 over 2-4 hosts with name/IP/regex host sets, plus directed one-way-partition-under-random-failure runs; UDP datagrams every 1-3 ms in every direction, TCP connect+record probes and long-lived conversations (one stream per ordered host pair, both sides write periodically and close at seeded times; every EOF/reset/write error a side observes must have been carried by a message that did not cross an explicit partition); fixed and ranged latencies; fail/repair rates 0 or in {0.05,0.3,1}; non-trivial = >=1 message sent inside a partitioned interval and >=1 message definitely in flight at a switch-on; distinct = digest of (calls, latency config, receive log)",
         assumptions: vec![
             "hold/release never generated (documented unsupported mix)".into(),
             "messages whose maturity relative to a switch-on cannot be decided from the latency range are skipped and counted as Undetermined".into(),
             "keeps-flowing half only checked with fail_rate = 0".into(),
         ],
         min_distinct: 100,
-        required_counters: vec!["udp_Blocked", "udp_InFlightDropped", "udp_MustArrive", "syn_Blocked", "tcpdata_MustArrive", "calls"],
+        required_counters: vec!["udp_Blocked", "udp_InFlightDropped", "udp_MustArrive", "syn_Blocked", "tcpdata_MustArrive", "calls", "conversations_established", "conversation_ends_observed", "conversation_ends_with_direction_partitioned"],
     }
 }
